@@ -2,7 +2,14 @@
 
 package ws
 
-import "io"
+import (
+	"bytes"
+	"crypto/sha1"
+	"encoding/base64"
+	"io"
+	"net"
+	"time"
+)
 
 // vSrc serves data with nondeterministic chunking (all / 1 byte / 2 bytes per Read).
 type vSrc struct {
@@ -79,3 +86,225 @@ func vUTF8Valid(p []byte) bool {
 	}
 	return s == 0
 }
+
+// recording writer
+type vRec struct{ b []byte }
+
+func (r *vRec) Write(p []byte) (int, error) { r.b = append(r.b, p...); return len(p), nil }
+
+func vHeader() Header {
+	var h Header
+	h.Fin = vBool("fin")
+	h.Rsv = vU8("rsv")
+	h.OpCode = OpCode(vU8("op"))
+	h.Masked = vBool("masked")
+	h.Mask = [4]byte{vU8("m0"), vU8("m1"), vU8("m2"), vU8("m3")}
+	h.Length = int64(vU64("len"))
+	vAssume(h.Rsv <= 7)
+	vAssume(h.OpCode <= 15)
+	vAssume(h.Length >= 0)
+	return h
+}
+
+func vHeaderEq(a, b Header) bool {
+	ok := vAnd(a.Fin == b.Fin, a.Rsv == b.Rsv)
+	ok = vAnd(ok, a.OpCode == b.OpCode)
+	ok = vAnd(ok, a.Masked == b.Masked)
+	ok = vAnd(ok, a.Length == b.Length)
+	ok = vAnd(ok, vImplies(a.Masked, a.Mask == b.Mask))
+	return ok
+}
+
+type vConn struct {
+	in     []byte
+	pos    int
+	out    []byte
+	one    bool
+	cutErr bool
+}
+
+func (c *vConn) Read(p []byte) (int, error) {
+	if c.pos >= len(c.in) {
+		if c.cutErr {
+			return 0, io.ErrUnexpectedEOF
+		}
+		return 0, io.EOF
+	}
+	n := len(c.in) - c.pos
+	if n > len(p) {
+		n = len(p)
+	}
+	if c.one && n > 1 {
+		n = 1
+	}
+	copy(p, c.in[c.pos:c.pos+n])
+	c.pos += n
+	return n, nil
+}
+
+func (c *vConn) Write(p []byte) (int, error) { c.out = append(c.out, p...); return len(p), nil }
+
+func vAccept(key []byte) []byte {
+	h := sha1.Sum(append(append([]byte{}, key...), "258EAFA5-E914-47DA-95CA-C5AB0DC85B11"...))
+	out := make([]byte, 28)
+	base64.StdEncoding.Encode(out, h[:])
+	return out
+}
+
+// vResp is a parsed HTTP response head (concrete bytes expected).
+type vResp struct {
+	ok      bool
+	status  int
+	headers [][2]string
+	body    []byte
+}
+
+func vParseResp(b []byte) (r vResp) {
+	end := bytes.Index(b, []byte("\r\n\r\n"))
+	if end < 0 {
+		return r
+	}
+	lines := bytes.Split(b[:end], []byte("\r\n"))
+	sl := lines[0]
+	if len(sl) < 12 || string(sl[:9]) != "HTTP/1.1 " {
+		return r
+	}
+	for _, c := range sl[9:12] {
+		if c < '0' || c > '9' {
+			return r
+		}
+		r.status = r.status*10 + int(c-'0')
+	}
+	for _, l := range lines[1:] {
+		i := bytes.Index(l, []byte(": "))
+		if i < 0 {
+			return r
+		}
+		r.headers = append(r.headers, [2]string{string(l[:i]), string(l[i+2:])})
+	}
+	r.body = b[end+4:]
+	r.ok = true
+	return r
+}
+
+func (r vResp) get(name string) (string, int) {
+	n, v := 0, ""
+	for _, h := range r.headers {
+		if h[0] == name {
+			if n == 0 {
+				v = h[1]
+			}
+			n++
+		}
+	}
+	return v, n
+}
+
+var vKeys = []string{"dGhlIHNhbXBsZSBub25jZQ==", "AAAAAAAAAAAAAAAAAAAAAA=="}
+
+type vRejectErr struct{}
+
+func (vRejectErr) Error() string { return "harness: plain rejection" }
+
+// vSplitReq parses the request the dialer wrote (concrete apart from the key).
+type vReqParsed struct {
+	ok     bool
+	line   string
+	names  []string
+	values [][]byte
+}
+
+func vParseReq(b []byte) (r vReqParsed) {
+	end := bytes.Index(b, []byte("\r\n\r\n"))
+	if end < 0 || end+4 != len(b) {
+		return r
+	}
+	lines := bytes.Split(b[:end], []byte("\r\n"))
+	r.line = string(lines[0])
+	for _, l := range lines[1:] {
+		i := bytes.Index(l, []byte(": "))
+		if i < 0 {
+			return r
+		}
+		r.names = append(r.names, string(l[:i]))
+		r.values = append(r.values, l[i+2:])
+	}
+	r.ok = true
+	return r
+}
+
+func (r vReqParsed) get(name string) ([]byte, int) {
+	var v []byte
+	n := 0
+	for i, k := range r.names {
+		if k == name {
+			if n == 0 {
+				v = r.values[i]
+			}
+			n++
+		}
+	}
+	return v, n
+}
+
+// vServer is the harness' peer: it swallows the request and serves a scripted response.
+type vServer struct {
+	out     []byte // what the dialer wrote
+	resp    func(key []byte) []byte
+	in      []byte
+	started bool
+	pos     int
+	chunks  []int // sizes of successive reads (0 = rest)
+	reads   int
+	keySeen []byte
+}
+
+func (s *vServer) Write(p []byte) (int, error) { s.out = append(s.out, p...); return len(p), nil }
+
+func (s *vServer) Read(p []byte) (int, error) {
+	if !s.started {
+		s.started = true
+		i := bytes.Index(s.out, []byte("Sec-WebSocket-Key: "))
+		if i >= 0 && len(s.out) >= i+19+24 {
+			s.keySeen = s.out[i+19 : i+19+24]
+		}
+		s.in = s.resp(s.keySeen)
+	}
+	if s.pos >= len(s.in) {
+		return 0, io.EOF
+	}
+	n := len(s.in) - s.pos
+	if s.reads < len(s.chunks) && s.chunks[s.reads] > 0 && s.chunks[s.reads] < n {
+		n = s.chunks[s.reads]
+	}
+	s.reads++
+	if n > len(p) {
+		n = len(p)
+	}
+	copy(p, s.in[s.pos:s.pos+n])
+	s.pos += n
+	return n, nil
+}
+
+type vStubAddr struct{}
+
+func (vStubAddr) Network() string { return "tcp" }
+
+func (vStubAddr) String() string { return "stub" }
+
+type vNetConn struct {
+	vServer
+	closed bool
+}
+
+func (c *vNetConn) Close() error { c.closed = true; return nil }
+
+func (c *vNetConn) LocalAddr() net.Addr { return vStubAddr{} }
+
+func (c *vNetConn) RemoteAddr() net.Addr { return vStubAddr{} }
+
+func (c *vNetConn) SetDeadline(t time.Time) error { return nil }
+
+func (c *vNetConn) SetReadDeadline(t time.Time) error { return nil }
+
+func (c *vNetConn) SetWriteDeadline(t time.Time) error { return nil }
